@@ -335,7 +335,7 @@ struct Session {
     Rec rec; Filter filter; SecurityManager* sec;
     xstr scannerName;
     std::vector<DOMDocument*> adopted;
-    Session() : led(0), mm(XMLPlatformUtils::fgMemoryManager), pool(0), sax1(0), sax2(0), dom(0), ls(0), sec(0) {}
+    Session() : led(0), mm(XMLPlatformUtils::fgMemoryManager), pool(0), sax1(0), sax2(0), dom(0), ls(0), sec(0), scannerName(XMLUni::fgIGXMLScanner) {}
 };
 
 static bool optb(const std::map<std::string, std::string>& m, const char* k, bool d) {
@@ -365,10 +365,14 @@ static void configure(Session& S, const std::map<std::string, std::string>& o) {
     if (seclimit >= 0) { if (!S.sec) S.sec = new SecurityManager(); S.sec->setEntityExpansionLimit((XMLSize_t)seclimit); }
     SecurityManager* sm = seclimit >= 0 ? S.sec : 0;
     const XMLCh* sc = scannerConst(scanner);
+    // selecting a scanner replaces the scanner object (and with it all per-parser scanning state): do it only when
+    // the requested scanner differs from the current one, otherwise every step would silently get a fresh scanner
+    bool switchScanner = (S.scannerName != xstr(sc));
+    S.scannerName = xstr(sc);
     xstr xesl = u16(esl), xennsl = u16(ennsl);
     if (S.sax1) {
         SAXParser* p = S.sax1;
-        p->useScanner(sc);
+        if (switchScanner) p->useScanner(sc);
         p->setDoNamespaces(ns); p->setDoSchema(schema); p->setValidationSchemaFullChecking(full); p->setLoadExternalDTD(extdtd);
         p->setValidationScheme(val == "always" ? SAXParser::Val_Always : val == "auto" ? SAXParser::Val_Auto : SAXParser::Val_Never);
         p->setExitOnFirstFatalError(!cont); p->setDisableDefaultEntityResolution(disdef); p->setLoadSchema(loadschema);
@@ -379,7 +383,7 @@ static void configure(Session& S, const std::map<std::string, std::string>& o) {
         if (!ennsl.empty()) p->setExternalNoNamespaceSchemaLocation(xennsl.c_str());
     } else if (S.sax2) {
         SAX2XMLReader* p = S.sax2;
-        p->setProperty(XMLUni::fgXercesScannerName, (void*)sc);
+        if (switchScanner) p->setProperty(XMLUni::fgXercesScannerName, (void*)sc);
         p->setFeature(XMLUni::fgSAX2CoreNameSpaces, ns); p->setFeature(XMLUni::fgSAX2CoreNameSpacePrefixes, nspfx);
         p->setFeature(XMLUni::fgXercesSchema, schema); p->setFeature(XMLUni::fgXercesSchemaFullChecking, full);
         p->setFeature(XMLUni::fgXercesLoadExternalDTD, extdtd);
@@ -395,7 +399,7 @@ static void configure(Session& S, const std::map<std::string, std::string>& o) {
         if (!ennsl.empty()) p->setProperty(XMLUni::fgXercesSchemaExternalNoNameSpaceSchemaLocation, (void*)xennsl.c_str());
     } else if (S.dom) {
         XercesDOMParser* p = S.dom;
-        p->useScanner(sc);
+        if (switchScanner) p->useScanner(sc);
         p->setDoNamespaces(ns); p->setDoSchema(schema); p->setValidationSchemaFullChecking(full); p->setLoadExternalDTD(extdtd);
         p->setValidationScheme(val == "always" ? XercesDOMParser::Val_Always : val == "auto" ? XercesDOMParser::Val_Auto : XercesDOMParser::Val_Never);
         p->setExitOnFirstFatalError(!cont); p->setDisableDefaultEntityResolution(disdef); p->setLoadSchema(loadschema);
@@ -407,7 +411,7 @@ static void configure(Session& S, const std::map<std::string, std::string>& o) {
         if (!ennsl.empty()) p->setExternalNoNamespaceSchemaLocation(xennsl.c_str());
     } else if (S.ls) {
         DOMConfiguration* c = S.ls->getDomConfig();
-        c->setParameter(XMLUni::fgXercesScannerName, (const void*)sc);
+        if (switchScanner) c->setParameter(XMLUni::fgXercesScannerName, (const void*)sc);
         c->setParameter(XMLUni::fgDOMNamespaces, ns); c->setParameter(XMLUni::fgXercesSchema, schema); c->setParameter(XMLUni::fgXercesSchemaFullChecking, full);
         c->setParameter(XMLUni::fgXercesLoadExternalDTD, extdtd);
         c->setParameter(XMLUni::fgDOMValidate, val == "always"); c->setParameter(XMLUni::fgDOMValidateIfSchema, val == "auto");
